@@ -144,4 +144,5 @@ def ma_structured("""),
                         variogram[i] += estimator_func(f[m, k] - f[m, j])
                         counts[i] += 1"""),
     dict(name="twin-estimator-pow", kind="twin", file=E, old="    return f_diff * f_diff", new="    return pow(f_diff, 2)"),
+    dict(name="axis-missing-drops-user-mask", file="variogram/variogram.py", expect="R08.3", old="                field, mask=np.logical_or(field.mask, missing_mask)", new="                np.ma.getdata(field), mask=missing_mask"),
 ]
